@@ -51,11 +51,17 @@ struct Capture {
 impl ExportEvent for Capture {
     fn emit(&self, event: qevent::Event) {
         // C20: every event serialises to a JSON object and parses back to an equal event
+        // (equal = the parsed event serialises to the same JSON value: untagged enums may parse into a different but
+        // equivalent in-memory variant, which is not held against the code)
         let (q, rt_ok) = match serde_json::to_string(&event) {
             Ok(s) => {
+                let orig = serde_json::from_str::<Value>(&s).unwrap_or(Value::Null);
                 let back: Result<qevent::Event, _> = serde_json::from_str(&s);
-                let rt = matches!(&back, Ok(b) if *b == event);
-                (serde_json::from_str::<Value>(&s).unwrap_or(Value::Null), rt)
+                let rt = match &back {
+                    Ok(b) => serde_json::to_value(b).map(|v| v == orig).unwrap_or(false),
+                    Err(_) => false,
+                };
+                (orig, rt)
             }
             Err(_) => (Value::Null, false),
         };
@@ -434,16 +440,15 @@ async fn run_scenario(sc: Value, log: Log) -> Value {
         .with_iface_factory(factory.clone())
         .with_iface_manager(manager.clone())
         .without_client_cert_verifier()
-        .with_parameters(sp)
-        .with_qlog(qlogger(&log, &qmode))
-        .listen(128)
-        .expect("listen");
+        .with_parameters(sp);
+    let listeners = if qmode == "none" { listeners } else { listeners.with_qlog(qlogger(&log, &qmode)) };
+    let listeners = listeners.listen(128).expect("listen");
     listeners.add_server("localhost", SERVER_CERT, SERVER_KEY, ["inet://127.0.0.1:4433"], None).await.expect("add_server");
 
     let sapp = App { log: log.clone(), side: "srv" };
     let capp = App { log: log.clone(), side: "cli" };
-    let srv_close = sc["close"]["who"] == "srv";
-    let close_at = sc["close"]["at_ms"].as_u64();
+    let close_at = sc["close"]["srv"].as_u64();
+    let srv_close = close_at.is_some();
     let server_task = {
         let (listeners, sapp, sc) = (listeners.clone(), sapp.clone(), sc.clone());
         tokio::spawn(async move {
@@ -474,8 +479,9 @@ async fn run_scenario(sc: Value, log: Log) -> Value {
         .with_iface_manager(manager)
         .with_root_certificates(roots)
         .with_parameters(cp)
-        .without_cert()
-        .with_qlog(qlogger(&log, &qmode))
+        .without_cert();
+    let client = if qmode == "none" { client } else { client.with_qlog(qlogger(&log, &qmode)) };
+    let client = client
         .bind(["inet://127.0.0.1:40001"])
         .await
         .build();
@@ -502,8 +508,8 @@ async fn run_scenario(sc: Value, log: Log) -> Value {
                     }
                 });
             }
-            if sc["close"]["who"] == "cli" {
-                if let Some(ms) = sc["close"]["at_ms"].as_u64() {
+            {
+                if let Some(ms) = sc["close"]["cli"].as_u64() {
                     let (c2, a2) = (conn.clone(), capp.clone());
                     tokio::spawn(async move {
                         tokio::time::sleep_until(a2.log_t0() + Duration::from_millis(ms)).await;
@@ -514,7 +520,7 @@ async fn run_scenario(sc: Value, log: Log) -> Value {
             }
             let ok = client_conn(capp.clone(), conn.clone(), sc.clone()).await;
             capp.ev("workload_done", 0, json!({"ok": ok}));
-            if sc["linger_ms"].as_u64().unwrap_or(0) > 0 {
+            if sc["lingers"].as_bool().unwrap_or(false) {
                 // stay idle: the negotiated idle timeout must close the connection
                 let term = conn.terminated().await;
                 capp.ev("terminated", 0, json!({"msg": errs(&term)}));
@@ -589,6 +595,7 @@ fn slim(e: &Value) -> Value {
             o["pn"] = json!(cap(d["header"].get("packet_number")));
             o["len"] = json!(cap(d["raw"].get("length")));
             o["nframes"] = json!(d["frames"].as_array().map(|a| a.len()).unwrap_or(0));
+            o["carries_data"] = json!(d["frames"].as_array().map(|a| a.iter().any(|f| matches!(f["frame_type"].as_str(), Some("stream") | Some("datagram")))).unwrap_or(false));
             o["trigger"] = json!(st(d.get("trigger")));
             o["has_header"] = json!(d["header"].is_object());
         }
@@ -647,11 +654,16 @@ fn run(args: &[String]) -> i32 {
         });
         drop(rt);
         out.emit(&json!({"ev": "reset", "sc": sc, "scs": serde_json::to_string(&sc).unwrap()}));
+        let mut sum: Vec<String> = events.iter().filter(|e| e["ev"] == "app" && e["op"] == "stream_done")
+            .map(|e| format!("{}:{}:{}:{}", e["sid"], e["size"], e["ok"], e.get("echoed").cloned().unwrap_or(json!(-2)))).collect();
+        sum.sort();
+        sum.push(format!("cli_ok={}", fin["cli_ok"]));
         for e in events {
             if e["ev"] == "qlog" {
                 let sl = slim(&e);
                 let keep = match sc["qkeep"].as_str() {
                     Some("pkt") => sl["name"] == "packet_sent" || sl["name"] == "packet_received",
+                    Some("life") => sl["name"] == "packet_sent" || sl["name"] == "connection_state_updated" || sl["name"] == "connection_closed",
                     _ => true,
                 };
                 if keep {
@@ -667,6 +679,7 @@ fn run(args: &[String]) -> i32 {
         for p in PANICS.lock().unwrap().drain(..) {
             out.emit(&json!({"ev": "panic", "msg": p}));
         }
+        out.emit(&json!({"ev": "appsum", "sum": sum.join(",")}));
         out.emit(&fin);
         n += 1;
     }
